@@ -126,6 +126,8 @@ u8_t runcrypt::verify(size_t fsize)
   header.checkType();
   resultprint->printctype(header.getctype());
   resultprint->printhtype(header.gethtype());
+  if (header.getctype() > 4 || HashFactory::getType(header.gethtype()) == HashFactory::Unknown)
+    return 3;
   u8_t *hash = header.getHmac(64);
   if (hash == NULL)
     return 1;
